@@ -43,6 +43,14 @@ import (
 // worldRng is a splitmix64 generator implementing world.Rng.
 type worldRng struct{ s uint64 }
 
+// reporter is the part of *testing.T the model checks need; simulation scenarios pass their own.
+type reporter interface {
+	Errorf(format string, args ...any)
+	Fatalf(format string, args ...any)
+	Fatal(args ...any)
+	Helper()
+}
+
 func (r *worldRng) Uint64() uint64 {
 	r.s += 0x9e3779b97f4a7c15
 	z := r.s
@@ -208,7 +216,7 @@ func muteStderr(t *testing.T) func() {
 // static checks: the world against itself and against reference decoders
 // ---------------------------------------------------------------------------------------------
 
-func checkWorldStatic(t *testing.T, seed int, p world.Params, w *world.World) {
+func checkWorldStatic(t reporter, seed int, p world.Params, w *world.World) {
 	t.Helper()
 	// determinism, and salt independence of CIDs
 	again := world.Generate(&worldRng{s: uint64(seed)}, p)
@@ -397,7 +405,7 @@ func checkWorldStatic(t *testing.T, seed int, p world.Params, w *world.World) {
 }
 
 // refDecodeFrame decodes a DataFrame node with the reference decoder.
-func refDecodeFrame(t *testing.T, data []byte) *ipldbindcode.DataFrame {
+func refDecodeFrame(t reporter, data []byte) *ipldbindcode.DataFrame {
 	t.Helper()
 	var f ipldbindcode.DataFrame
 	if _, err := ipld.Unmarshal(data, dagcbor.Decode, &f, ipldbindcode.Prototypes.DataFrame.Type()); err != nil {
@@ -409,7 +417,7 @@ func refDecodeFrame(t *testing.T, data []byte) *ipldbindcode.DataFrame {
 // checkFrames is an independent reimplementation of the frame reassembly: it follows the next
 // links from the embedded first frame, checks index/total/hash on every frame, the position of
 // the continuation frames in the CAR (strictly between lo and hi) and returns the payload.
-func checkFrames(t *testing.T, w *world.World, what string, first *ipldbindcode.DataFrame, lo, hi uint64, wantFrames int) []byte {
+func checkFrames(t reporter, w *world.World, what string, first *ipldbindcode.DataFrame, lo, hi uint64, wantFrames int) []byte {
 	t.Helper()
 	type fr struct {
 		f   *ipldbindcode.DataFrame
@@ -483,7 +491,7 @@ func checkFrames(t *testing.T, w *world.World, what string, first *ipldbindcode.
 }
 
 // checkWorldLayout checks the order of the sections and every data-frame chain.
-func checkWorldLayout(t *testing.T, w *world.World) {
+func checkWorldLayout(t reporter, w *world.World) {
 	t.Helper()
 	index := make(map[string]int, len(w.Objects))
 	nFrames := 0
@@ -631,7 +639,7 @@ func nilIfEmpty(k []solana.PublicKey) []solana.PublicKey {
 
 // checkReferenceRoundTrip decodes an object with the reference decoder (bindnode + dag-cbor,
 // not the repository's hand-written CBOR code) and re-encodes it to the same bytes.
-func checkReferenceRoundTrip(t *testing.T, o *world.Object) {
+func checkReferenceRoundTrip(t reporter, o *world.Object) {
 	t.Helper()
 	var ptr interface{}
 	var typ schema.Type
@@ -674,7 +682,7 @@ type rpcReply struct {
 	} `json:"error"`
 }
 
-func callRPC(t *testing.T, handler func(*fasthttp.RequestCtx), method string, params any) rpcReply {
+func callRPC(t reporter, handler func(*fasthttp.RequestCtx), method string, params any) rpcReply {
 	t.Helper()
 	st, body := jsonRPC(handler, method, params)
 	if st != 200 {
@@ -687,7 +695,7 @@ func callRPC(t *testing.T, handler func(*fasthttp.RequestCtx), method string, pa
 	return r
 }
 
-func decodeJSON(t *testing.T, raw json.RawMessage) any {
+func decodeJSON(t reporter, raw json.RawMessage) any {
 	t.Helper()
 	d := json.NewDecoder(bytes.NewReader(raw))
 	d.UseNumber()
@@ -698,7 +706,7 @@ func decodeJSON(t *testing.T, raw json.RawMessage) any {
 	return v
 }
 
-func jsonU64(t *testing.T, v any, what string) uint64 {
+func jsonU64(t reporter, v any, what string) uint64 {
 	t.Helper()
 	n, ok := v.(json.Number)
 	if !ok {
@@ -711,7 +719,7 @@ func jsonU64(t *testing.T, v any, what string) uint64 {
 	return u
 }
 
-func jsonI64(t *testing.T, v any, what string) int64 {
+func jsonI64(t reporter, v any, what string) int64 {
 	t.Helper()
 	n, ok := v.(json.Number)
 	if !ok {
@@ -733,7 +741,7 @@ func findWorld(worlds []*world.World, slot uint64) *world.World {
 	return nil
 }
 
-func checkWorldServer(t *testing.T, multi *MultiEpoch, handler func(*fasthttp.RequestCtx), worlds []*world.World, withGsfa bool) {
+func checkWorldServer(t reporter, multi *MultiEpoch, handler func(*fasthttp.RequestCtx), worlds []*world.World, withGsfa bool) {
 	t.Helper()
 	ctx := context.Background()
 	for _, w := range worlds {
@@ -856,7 +864,7 @@ func checkWorldServer(t *testing.T, multi *MultiEpoch, handler func(*fasthttp.Re
 }
 
 // worldIsIndexFalsePositive reports whether a getBlock result is a block of w (see D5).
-func worldIsIndexFalsePositive(t *testing.T, w *world.World, result json.RawMessage) bool {
+func worldIsIndexFalsePositive(t reporter, w *world.World, result json.RawMessage) bool {
 	res, ok := decodeJSON(t, result).(map[string]any)
 	if !ok {
 		return false
@@ -894,7 +902,7 @@ func isDanglingFirst(w *world.World, bi int) bool {
 	return bi == 0 && w.Params.DanglingFirstParent && b.Slot > 0 && b.ParentSlot == b.Slot-1 && b.ParentSlot/world.SlotsPerEpoch == w.Epoch && (b.ParentSlot != 0 || b.Slot == 1)
 }
 
-func checkBlockGRPC(t *testing.T, multi *MultiEpoch, w *world.World, bi int, b *world.Block) {
+func checkBlockGRPC(t reporter, multi *MultiEpoch, w *world.World, bi int, b *world.Block) {
 	t.Helper()
 	resp, err := multi.GetBlock(context.Background(), &old_faithful_grpc.BlockRequest{Slot: b.Slot})
 	if isDanglingFirst(w, bi) {
@@ -951,7 +959,7 @@ func checkBlockGRPC(t *testing.T, multi *MultiEpoch, w *world.World, bi int, b *
 	}
 }
 
-func decodeEncodedTx(t *testing.T, v any, enc string) []byte {
+func decodeEncodedTx(t reporter, v any, enc string) []byte {
 	t.Helper()
 	pair, ok := v.([]any)
 	if !ok || len(pair) != 2 || pair[1] != enc {
@@ -992,7 +1000,7 @@ func decodeEncodedTx(t *testing.T, v any, enc string) []byte {
 }
 
 // checkTxObjectJSON compares one {transaction, meta, version} object.
-func checkTxObjectJSON(t *testing.T, what string, obj map[string]any, tx *world.Tx, enc string) {
+func checkTxObjectJSON(t reporter, what string, obj map[string]any, tx *world.Tx, enc string) {
 	t.Helper()
 	if tx.IsV0 {
 		if jsonU64(t, obj["version"], what+" version") != 0 {
@@ -1093,7 +1101,7 @@ func checkTxObjectJSON(t *testing.T, what string, obj map[string]any, tx *world.
 	}
 }
 
-func checkBlockJSON(t *testing.T, handler func(*fasthttp.RequestCtx), w *world.World, bi int, b *world.Block, enc string) {
+func checkBlockJSON(t reporter, handler func(*fasthttp.RequestCtx), w *world.World, bi int, b *world.Block, enc string) {
 	t.Helper()
 	what := fmt.Sprintf("getBlock(%d,%s)", b.Slot, enc)
 	r := callRPC(t, handler, "getBlock", []any{b.Slot, map[string]any{"encoding": enc, "maxSupportedTransactionVersion": 0, "transactionDetails": "full", "rewards": true}})
@@ -1172,7 +1180,7 @@ func checkBlockJSON(t *testing.T, handler func(*fasthttp.RequestCtx), w *world.W
 	}
 }
 
-func checkBlockTime(t *testing.T, multi *MultiEpoch, handler func(*fasthttp.RequestCtx), slot uint64, want int64) {
+func checkBlockTime(t reporter, multi *MultiEpoch, handler func(*fasthttp.RequestCtx), slot uint64, want int64) {
 	t.Helper()
 	r := callRPC(t, handler, "getBlockTime", []any{slot})
 	wantJSON := "null"
@@ -1188,7 +1196,7 @@ func checkBlockTime(t *testing.T, multi *MultiEpoch, handler func(*fasthttp.Requ
 	}
 }
 
-func checkTxGRPC(t *testing.T, multi *MultiEpoch, tx *world.Tx) {
+func checkTxGRPC(t reporter, multi *MultiEpoch, tx *world.Tx) {
 	t.Helper()
 	sig := tx.Sig()
 	resp, err := multi.GetTransaction(context.Background(), &old_faithful_grpc.TransactionRequest{Signature: sig[:]})
@@ -1203,7 +1211,7 @@ func checkTxGRPC(t *testing.T, multi *MultiEpoch, tx *world.Tx) {
 	}
 }
 
-func checkTxJSON(t *testing.T, handler func(*fasthttp.RequestCtx), tx *world.Tx, enc string) {
+func checkTxJSON(t reporter, handler func(*fasthttp.RequestCtx), tx *world.Tx, enc string) {
 	t.Helper()
 	what := fmt.Sprintf("getTransaction(%s,%s)", tx.Sig(), enc)
 	r := callRPC(t, handler, "getTransaction", []any{tx.Sig().String(), map[string]any{"encoding": enc, "maxSupportedTransactionVersion": 0}})
@@ -1230,7 +1238,7 @@ func checkTxJSON(t *testing.T, handler func(*fasthttp.RequestCtx), tx *world.Tx,
 	checkTxObjectJSON(t, what, res, tx, enc)
 }
 
-func checkSignaturesForAddress(t *testing.T, handler func(*fasthttp.RequestCtx), worlds []*world.World) {
+func checkSignaturesForAddress(t reporter, handler func(*fasthttp.RequestCtx), worlds []*world.World) {
 	t.Helper()
 	// union of the addresses, newest epoch first
 	seen := make(map[solana.PublicKey]bool)
